@@ -79,10 +79,15 @@ func runSolver(ctx context.Context, s solverSpec, file string, timeoutS int) (st
 	cmd.Stderr = &out
 	_ = cmd.Run()
 	text := out.String()
-	first := strings.TrimSpace(strings.SplitN(text, "\n", 2)[0])
-	switch first {
-	case "unsat", "sat", "unknown":
-		return first, text
+	for _, line := range strings.Split(text, "\n") {
+		line = strings.TrimSpace(line)
+		switch line {
+		case "unsat", "sat", "unknown":
+			return line, text
+		}
+		if strings.HasPrefix(line, "(error") {
+			break
+		}
 	}
 	if strings.Contains(text, "timeout") {
 		return "unknown", text
